@@ -289,7 +289,7 @@ func checkDefs() map[string]*CheckDef {
 	defs = append(defs,
 		&CheckDef{ID: "C11", Title: "Tag scanning through embedded structs, frame condition",
 			Runs: func(tier string) []RunSpec {
-				return []RunSpec{{Name: "shapes", Pkg: fac, Entry: "VerifC11", Params: map[string]int{"SHAPES": 8}, MustCover: []string{"see-through embedding", "opaque embedding", "same type embedded twice"}, Opts: ExecOpts{PermuteRange: tier == "thorough"}}}
+				return []RunSpec{{Name: "shapes", Pkg: fac, Entry: "VerifC11", Params: map[string]int{"SHAPES": 10}, MustCover: []string{"see-through embedding", "opaque embedding", "same type embedded twice", "same-named embedded types"}, Opts: ExecOpts{PermuteRange: tier == "thorough"}}}
 			},
 			LevelText: "Bounded symbolic model checking of NewMeta/scanFields/ForEachFieldV2, the real tag-scan processors (wire, func, value+prop, prefix, logger) plus a custom-tag processor, and the real populate path, on a fixed family of struct shapes (flat; the same tagged block embedded by value at depth 1, 2, 3; embedded struct with an unexported type name, also in the middle of the chain; embedded struct that itself carries a tag; embedded pointer-to-struct) with SYMBOLIC initial contents of every field and symbolic configured values: per shape the property list and every bound value equal those of the flat twin, the custom processor receives exactly its field with value and arguments, and unexported / untagged / foreign-tagged / unexported-but-tagged fields are bit-identical afterwards.",
 			LevelNote: "Reduced claim: struct types are program text, not solver data - the quantification over 'all struct shapes' is NOT addressed, only the 8 shapes listed. The reflect model's CanSet/embedding rules are validated by native replay of the sampled paths on exactly these shapes.",
